@@ -448,7 +448,7 @@ func mkOps[T any](ty int, mk func(v int, bad any, p *pubInfo) T) typeOps {
 				opts = append(opts, sharedSequential)
 			}
 			if r.filtM > 0 {
-				opts = append(opts, eb.WithFilter(func(e T) bool {
+				pred := func(e T) bool {
 					v, p := getVP(e)
 					ok := v%r.filtM == r.filtR
 					cs.emit("filt %d %d %d %s", p.depth, rid, v, b01(ok))
@@ -456,7 +456,22 @@ func mkOps[T any](ty int, mk func(v int, bad any, p *pubInfo) T) typeOps {
 						p.cancel() // user code between the cancellation check and the handler start
 					}
 					return ok
-				}))
+				}
+				kind := (rid + r.filtM) % 4
+				var zero T
+				if _, isBusEvt := any(zero).(busEvt); kind == 1 && !isBusEvt {
+					kind = 3 // (an event type that does not implement the interface: a predicate over it would not apply)
+				}
+				switch kind {
+				case 1:
+					// a predicate over an interface the event type implements (WithFilter's type parameter is independent of
+					// the subscription's): it has to be applied all the same
+					opts = append(opts, eb.WithFilter(func(e busEvt) bool { return pred(e.(T)) }))
+				case 3:
+					opts = append(opts, eb.WithFilter(func(e any) bool { return pred(e.(T)) }))
+				default:
+					opts = append(opts, eb.WithFilter(pred))
+				}
 			}
 			var err error
 			if r.hid >= 6 {
